@@ -356,13 +356,13 @@ package source
 //@     ghost pfirstG := false
 //@     ghost psentG := 0
 //@   loop 2
-//@     invariant firstG ==> nextRelatedFrom == relatedFrom
-//@     invariant !firstG ==> nextRelatedFrom == contG && contG != nil
+//@     invariant [C18:the-first-page-of-a-start-point-is-asked-for-with-the-query-built-for-it] firstG ==> nextRelatedFrom == relatedFrom
+//@     invariant [C18:every-later-page-is-asked-for-with-the-continuation-of-the-page-before] !firstG ==> nextRelatedFrom == contG && contG != nil
 //@     invariant pfirstG
 //@     invariant relatedFrom != nil && relatedFrom.Predicate == predID
 //@     invariant relatedFrom.Inverse == join.Inverse
 //@     invariant relatedFrom.Datasets == datasets
-//@     invariant relatedFrom.At == queryTime
+//@     invariant [C18:the-current-relations-are-read-at-the-time-of-this-run] relatedFrom.At == queryTime
 //@     invariant len(relatedFrom.RelationIndexFromKey) == 10
 //@     invariant encBE64(relatedFrom.RelationIndexFromKey, 2) == rid
 //@     invariant encBE16(relatedFrom.RelationIndexFromKey, 0) == (join.Inverse ? 2 : 3)
@@ -372,7 +372,7 @@ package source
 //@     invariant psentG == $i + 1 && $i < len(prevRelatedEntities)
 //@   loop 4
 //@     invariant pfirstG ==> prevRelatedFrom == relatedFrom && relatedFrom != nil && relatedFrom.At == changes.Entities[0].Recorded && relatedFrom.Predicate == predID && !relatedFrom.Inverse && !join.Inverse && idx == 0 && relatedFrom.Datasets == datasets && len(relatedFrom.RelationIndexFromKey) == 10 && encBE64(relatedFrom.RelationIndexFromKey, 2) == rid && encBE16(relatedFrom.RelationIndexFromKey, 0) == 3
-//@     invariant !pfirstG ==> prevRelatedFrom == pcontG && pcontG != nil
+//@     invariant [C18:every-later-back-dated-page-is-asked-for-with-the-continuation-of-the-page-before] !pfirstG ==> prevRelatedFrom == pcontG && pcontG != nil
 
 // the callbacks handed to ProcessChanges collect every changed entity exactly once, in change order: the internal id as a
 // start point of the join queries (dependency), the entity itself as a member of the batch (main dataset)
